@@ -3,9 +3,10 @@
    Proved about the executable model Compile.v (compile_with_bound = BFS over derivatives driving
    the AutomatonBuilder, then build_unchecked).
 
-   Everything is stated under "compile_with_bound fuel m e bound = Some (m', Some A)", i.e. for
-   every automaton that is returned.  That the BFS terminates (finitely many derivatives) is NOT
-   proved here.
+   Everything except compile_returns_of_iter is stated under
+   "compile_with_bound fuel m e bound = Some (m', Some A)", i.e. for every automaton that is
+   returned.  That the BFS terminates (finitely many derivatives) is NOT proved here;
+   compile_returns_of_iter reduces "compile returns" to "the iterator's enumeration completes".
 
    Contents
      c2_step_ops / c2_hist      the builder calls made for one popped term / for the whole run
@@ -16,15 +17,23 @@
      c2_hist_strict             the history is a strict specification (labels = a pwf partition,
                                 default declared iff the complement is non-empty)
      build_ok_unchecked         build = Ok A  ->  build_unchecked = Some A
-     compiled_builder           characterisation of the builder + build_unchecked succeeds and
+     c2_builder_core, compiled_builder, compiled_builder_history
+                                characterisation of the builder; build_unchecked succeeds and
                                 agrees with the checked build
-     compiled_state_is_derivative, compiled_run, compiled_accepts, compiled_total,
-     compiled_wf, compiled_program   the theorems of C02 *)
+     compiled_state_is_derivative, compiled_run, compiled_accepts, compiled_rejects,
+     compiled_total             the semantic theorems of C02 (simulation with str_derivative)
+     build_ok_wf, build_history_wf, compiled_wf
+                                the state array of an automaton returned by build is well formed
+     compiled_program           program level: accepts exactly denote p
+     compile_correct, try_compile_correct
+                                the two entry points, all clauses at once
+     compile_returns_of_iter    enumeration completes => compile returns (uses EmptinessProofs.iter_cls_ok) *)
 Require Import Base CharSet CharSetProofs Partition PartitionSpec PartitionProofs LoopRange Regex.
 Require Import Inclusion Constructors Deriv Explore Automaton Compile Denote Lang Sem.
 Require Import ManagerProofs RunProofs BuilderSpec.
 Require AutomatonProofs.
 Require Import BuilderProofs DerivProofs ExploreProofs.
+Require EmptinessProofs.   (* qualified use only: iter_cls_ok *)
 Open Scope nat_scope.
 
 (* ------------------------------------------------------------------------------------------ *)
@@ -390,8 +399,39 @@ Lemma c2_run_history_hist M e l :
 Proof. reflexivity. Qed.
 
 (* the loop's builder is the builder of the history c2_hist; its state names are the ids of the
-   enumerated terms in BFS order; the history is strict, so build accepts it, and the automaton
-   returned by build_unchecked is the one build returns *)
+   enumerated terms in BFS order; the history is strict, so build accepts it, and build_unchecked
+   returns the automaton build returns: it cannot fail *)
+Lemma c2_builder_core fuel m e mx m' b :
+  dwf m -> owned m e -> compile_go fuel m [e] [e] (b_new (rid e)) 0 mx = Some (m', Some b) ->
+  exists l A,
+    iter_derivatives fuel m e = Some (m', l) /\ b = run_history (c2_hist m' e l) /\
+    build_unchecked b = Some A /\ c2_compiled m e m' A l.
+Proof.
+  intros Dm Oe Hgo.
+  destruct (c2_go fuel m [e] [e] (b_new (rid e)) 0 mx [] m' b Hgo Dm
+              (Forall_cons e Oe (Forall_nil _)) (bfs_inv_init e) (binv_new e))
+    as (l & Hit & D' & X' & C' & O' & K' & B').
+  cbn [app] in Hit, O', K'. specialize (B' m' (cache_ext_refl m')). rewrite <- c2_run_history_hist in B'.
+  subst b. exists l.
+  pose proof (proj1 D') as W'.
+  pose proof (c2_cls_ok m' l W' O') as Hcl.
+  pose proof (c2_ids_desc m' l W' O') as Hds.
+  pose proof (c2_inj m' l W' O') as Hinj.
+  pose proof (iter_nodup _ _ _ _ _ Hit) as Hnd.
+  assert (Hok : ops_ok (flat_map (c2_step_ops m') l)) by (apply c2_ops_ok; exact Hcl).
+  assert (Hnames : h_names (c2_hist m' e l) = map rid l).
+  { destruct (run_history_states (rid e) _ (ops_ok_nonew _ Hok)) as (N1 & _). cbv zeta in N1.
+    fold (c2_hist m' e l) in N1. rewrite <- N1. exact K'. }
+  pose proof (c2_hist_strict m' e l Hnd Hcl Hnames) as Hstrict.
+  pose proof (build_result (rid e) _ Hok) as R. cbv zeta in R. fold (c2_hist m' e l) in R.
+  rewrite (proj2 (spec_err_strict _) Hstrict) in R. destruct R as (A & HA & Hok').
+  exists A. split; [exact Hit|]. split; [reflexivity|]. split; [apply build_ok_unchecked; exact HA|].
+  split; auto.
+  - destruct (iter_first _ _ _ _ _ Hit) as [t ->]. reflexivity.
+  - intros r cid Hr Hc. destruct (iter_closed_in _ _ _ _ _ Hit Hds Hinj r cid Hr Hc) as [d [D1 D2]].
+    exists d. split; [|exact D2]. apply cderiv_iff. exact D1.
+Qed.
+
 Theorem compiled_builder fuel m e bound m' A :
   dwf m -> owned m e -> compile_with_bound fuel m e bound = Some (m', Some A) ->
   exists l mx,
@@ -409,29 +449,9 @@ Proof.
     - destruct (compile_go fuel m [e] [e] (b_new (rid e)) 0 (S fuel)) as [[m1 [b|]]|] eqn:E; try discriminate.
       destruct (build_unchecked b) as [a|] eqn:Eb; [|discriminate]. inversion H; subst. eauto. }
   destruct G as (mx & b & Hgo & Hbu).
-  destruct (c2_go fuel m [e] [e] (b_new (rid e)) 0 mx [] m' b Hgo Dm
-              (Forall_cons e Oe (Forall_nil _)) (bfs_inv_init e) (binv_new e))
-    as (l & Hit & D' & X' & C' & O' & K' & B').
-  cbn [app] in Hit, O', K'. specialize (B' m' (cache_ext_refl m')). rewrite <- c2_run_history_hist in B'.
-  subst b. exists l, mx. split; [exact Hit|]. split; [exact Hgo|]. split; [exact Hbu|].
-  pose proof (proj1 D') as W'.
-  pose proof (c2_cls_ok m' l W' O') as Hcl.
-  pose proof (c2_ids_desc m' l W' O') as Hds.
-  pose proof (c2_inj m' l W' O') as Hinj.
-  pose proof (iter_nodup _ _ _ _ _ Hit) as Hnd.
-  assert (Hok : ops_ok (flat_map (c2_step_ops m') l)) by (apply c2_ops_ok; exact Hcl).
-  assert (Hnames : h_names (c2_hist m' e l) = map rid l).
-  { destruct (run_history_states (rid e) _ (ops_ok_nonew _ Hok)) as (N1 & _). cbv zeta in N1.
-    fold (c2_hist m' e l) in N1. rewrite <- N1. exact K'. }
-  pose proof (c2_hist_strict m' e l Hnd Hcl Hnames) as Hstrict.
-  pose proof (build_result (rid e) _ Hok) as R. cbv zeta in R. fold (c2_hist m' e l) in R.
-  rewrite (proj2 (spec_err_strict _) Hstrict) in R. destruct R as (A' & HA' & Hok').
-  assert (A' = A).
-  { apply build_ok_unchecked in HA'. rewrite HA' in Hbu. inversion Hbu; reflexivity. }
-  subst A'. split; auto.
-  - destruct (iter_first _ _ _ _ _ Hit) as [t ->]. reflexivity.
-  - intros r cid Hr Hc. destruct (iter_closed_in _ _ _ _ _ Hit Hds Hinj r cid Hr Hc) as [d [D1 D2]].
-    exists d. split; [|exact D2]. apply cderiv_iff. exact D1.
+  destruct (c2_builder_core fuel m e mx m' b Dm Oe Hgo) as (l & A' & Hit & Hb & Hbu' & CC).
+  assert (A' = A) by congruence. subst A' b.
+  exists l, mx. auto.
 Qed.
 
 (* ------------------------------------------------------------------------------------------ *)
@@ -827,4 +847,40 @@ Proof.
   - intros s c Hs Hc. destruct (T1 s c Hs Hc) as [s' [E _]]. congruence.
   - intros s w Hs Hw. destruct (T2 s w Hs Hw) as [s' [E _]]. congruence.
   - exact (compiled_accepts fuel m e (Some n) m' A Dm Oe H).
+Qed.
+
+(* ------------------------------------------------------------------------------------------ *)
+(** * 9. What is missing for "compile always returns" is only termination of the enumeration *)
+
+(* If the iterator's enumeration of the derivatives of e completes, then -- on the same fuel --
+   compile(e) returns an automaton (no unwrap()/panic!() of the loop or of build_unchecked fires),
+   and try_compile(e, n) returns an automaton exactly when the number of derivatives is at most n. *)
+Theorem compile_returns_of_iter fuel m e m1 l :
+  dwf m -> owned m e -> iter_derivatives fuel m e = Some (m1, l) ->
+  (exists A, compile_with_bound fuel m e None = Some (m1, Some A)) /\
+  forall n, if Nat.leb (length l) n
+            then exists A, compile_with_bound fuel m e (Some n) = Some (m1, Some A)
+            else exists m2, compile_with_bound fuel m e (Some n) = Some (m2, None).
+Proof.
+  intros Dm Oe Hi. pose proof (EmptinessProofs.iter_cls_ok fuel m e m1 l Dm Oe Hi) as Hcl.
+  assert (G : forall mx, Nat.leb (length l) mx = true ->
+            exists b A, compile_go fuel m [e] [e] (b_new (rid e)) 0 mx = Some (m1, Some b) /\
+                        build_unchecked b = Some A).
+  { intros mx E.
+    pose proof (compile_go_of_iter fuel m [e] [e] (b_new (rid e)) 0 mx [] m1 l Hi Hcl eq_refl
+                  (bfs_inv_init e) (binv_new e) (Nat.le_0_l _)) as X.
+    rewrite E in X. destruct X as [b [X1 _]].
+    destruct (c2_builder_core fuel m e mx m1 b Dm Oe X1) as (_ & A & _ & _ & Hbu & _). eauto. }
+  split.
+  - destruct (iter_count_fuel _ _ _ _ _ Hi) as [Hlt _].
+    destruct (G (S fuel)) as (b & A & X1 & X2); [apply Nat.leb_le; lia|].
+    exists A. unfold compile_with_bound. rewrite X1, X2. reflexivity.
+  - intros n. destruct n as [|n].
+    + destruct (iter_first _ _ _ _ _ Hi) as [t ->]. cbn. eauto.
+    + destruct (Nat.leb (length l) (S n)) eqn:E.
+      * destruct (G (S n) E) as (b & A & X1 & X2).
+        exists A. unfold compile_with_bound. rewrite X1, X2. reflexivity.
+      * pose proof (compile_go_of_iter fuel m [e] [e] (b_new (rid e)) 0 (S n) [] m1 l Hi Hcl eq_refl
+                      (bfs_inv_init e) (binv_new e) (Nat.le_0_l _)) as X.
+        rewrite E in X. destruct X as [m2 X]. exists m2. unfold compile_with_bound. rewrite X. reflexivity.
 Qed.
